@@ -650,7 +650,7 @@ func c08ControlWriter(r *eng.Run) {
 			acceptedSinceFlush = nil
 			continue
 		}
-		k := []int{0, 1, 25, 60, 100, 124, 125, 126, 130}[r.T.Int(sim.LLen, 9)]
+		k := []int{0, 1, 25, 60, 100, 124, 125, 126, 130, 131, 156, 160, 200, 255, 256, 257, 300, 381, 65536 + 100}[r.T.Int(sim.LLen, 19)]
 		data := patBytes(seed, pos, k)
 		var (
 			m   int
